@@ -120,7 +120,68 @@ func (g *qGen) genSelectJoin(w *qWorld, depth int) qQuery {
 		c := g.cond(cols, 2)
 		wh, cwh = " WHERE "+c.sql, "(Some "+c.coq+")"
 	}
-	q := qQuery{shape: fmt.Sprintf("joins=%d", src.joins)}
+	// a correlated sub-query inside the WHERE clause or the select list.  Sub-queries are not expressions of the
+	// model; their meaning is stated through the LATERAL join it has: for every row o of the source the sub-query
+	// over [o] x inner is evaluated once, and
+	//   [NOT] EXISTS (SELECT .. WHERE c)        = the number of its rows is > 0 / = 0
+	//   x IN (SELECT v .. WHERE c)     (is TRUE) = some row with c has x = v TRUE
+	//   x NOT IN (SELECT v .. WHERE c) (is TRUE) = no row with c has x = v TRUE or UNKNOWN
+	//   (SELECT agg(..) .. WHERE c) in the select list = that one value, as one more column
+	subShape := ""
+	srcSQL, srcCoq := src.sql, src.coq
+	if g.lateral && usingShape == "" && g.r.Intn(5) == 0 { // (the merged columns of USING have no qualifier: inside a sub-query their names would mean the inner table's columns)
+		saved := g.noDiv
+		g.noDiv = true
+		inner := g.tableSrc(w)
+		lw := len(src.cols)
+		all := append(append([]string{}, src.cols...), inner.cols...)
+		acols := shiftCols(all)
+		li, ri := g.r.Intn(lw), lw+g.r.Intn(len(inner.cols))
+		op := qCmpOps[[]int{0, 0, 0, 2, 5, 6}[g.r.Intn(6)]]
+		c := qE{all[li] + " " + op[0] + " " + all[ri], fmt.Sprintf("(ECmp %s (ECol %d) (ECol %d))", op[1], li, ri)}
+		if g.r.Intn(3) == 0 {
+			c2 := g.cond(acols, 1)
+			c = qE{c.sql + " AND " + c2.sql, fmt.Sprintf("(EAnd %s %s)", c.coq, c2.coq)}
+		}
+		w.alias++
+		o := fmt.Sprintf("o%d", w.alias)
+		lat := func(kind, cond, item, on string) string {
+			return fmt.Sprintf("(SrcLateral %s %s 1 (fun %s : row => Q (BSelect (SrcJoin JCross (SrcTable %d [%s]) %s None) (Some %s) None None [%s] false) [] None None) %s)",
+				kind, src.coq, o, lw, o, inner.coq, cond, item, on)
+		}
+		cnt := func(rel string) string { return fmt.Sprintf("(Some (ECmp %s (ECol %d) (ELit (VInt 0))))", rel, lw) }
+		pre := ""
+		switch g.r.Intn(5) {
+		case 0:
+			pre, srcCoq, subShape = "EXISTS (SELECT 1 FROM "+inner.sql+" WHERE "+c.sql+")", lat("JInner", c.coq, "SCountStar", cnt("OpGt")), "+exists"
+		case 1:
+			pre, srcCoq, subShape = "NOT EXISTS (SELECT 1 FROM "+inner.sql+" WHERE "+c.sql+")", lat("JInner", c.coq, "SCountStar", cnt("OpEq")), "+not-exists"
+		case 2, 3:
+			x, v := acols[g.r.Intn(lw)], acols[lw+g.r.Intn(len(inner.cols))]
+			eq := fmt.Sprintf("(ECmp OpEq (ECol %d) (ECol %d))", x.idx, v.idx)
+			if g.r.Intn(2) == 0 {
+				pre = x.sql + " IN (SELECT " + v.sql + " FROM " + inner.sql + " WHERE " + c.sql + ")"
+				srcCoq, subShape = lat("JInner", fmt.Sprintf("(EAnd %s %s)", c.coq, eq), "SCountStar", cnt("OpGt")), "+in-subquery"
+			} else {
+				pre = x.sql + " NOT IN (SELECT " + v.sql + " FROM " + inner.sql + " WHERE " + c.sql + ")"
+				srcCoq, subShape = lat("JInner", fmt.Sprintf("(EAnd %s (EIs true %s (ELit (VTern TF))))", c.coq, eq), "SCountStar", cnt("OpEq")), "+not-in-subquery"
+			}
+		default:
+			it := g.aggItem(acols)
+			items = append(items, "(SELECT "+it.sql+" FROM "+inner.sql+" WHERE "+c.sql+")")
+			citems = append(citems, fmt.Sprintf("SExpr (ECol %d)", lw))
+			srcCoq, subShape = lat("JCross", c.coq, it.coq, "None"), "+scalar-subquery"
+		}
+		if pre != "" {
+			if wh == "" {
+				wh = " WHERE " + pre
+			} else {
+				wh = " WHERE " + pre + " AND (" + strings.TrimPrefix(wh, " WHERE ") + ")"
+			}
+		}
+		g.noDiv = saved
+	}
+	q := qQuery{shape: fmt.Sprintf("joins=%d", src.joins) + subShape}
 	if with != "" {
 		q.shape += "+cte"
 	}
@@ -132,8 +193,8 @@ func (g *qGen) genSelectJoin(w *qWorld, depth int) qQuery {
 	if rec != nil {
 		q.shape += "+recursive"
 	}
-	q.sql = with + "SELECT " + strings.Join(items, ", ") + " FROM " + src.sql + wh
-	q.coq = fmt.Sprintf("(Q (BSelect %s %s None None %s false) [] None None)", src.coq, cwh, coqList(citems))
+	q.sql = with + "SELECT " + strings.Join(items, ", ") + " FROM " + srcSQL + wh
+	q.coq = fmt.Sprintf("(Q (BSelect %s %s None None %s false) [] None None)", srcCoq, cwh, coqList(citems))
 	if src.joins > 0 || src.recursive {
 		// the order in which a recursive CTE delivers its rows is the model's, not the property's
 		q.mode = 1
